@@ -275,18 +275,17 @@ func TestVFC04Precedence(t *testing.T) {
 		vfC04.Class("precedence:decided_by_" + how)
 		vfC04.Class(fmt.Sprintf("precedence:levels_present=%d", d.Levels))
 		vfC04.Class(fmt.Sprintf("precedence:containing_networks=%d", len(lens)))
-		if d.Levels >= 2 || len(lens) >= 2 {
-			sort.Strings(desc)
+		sort.Strings(desc)
+		if d.Levels >= 2 || len(lens) >= 2 || how == "dhcp_mac" {
 			vfC04.Nontrivial(fmt.Sprintf("precedence|%s|%s|%s|%v", reqCID, target, hex.EncodeToString(leaseMAC), desc))
 			vfC04.Class("nontrivial:precedence_contest")
-			cls := "precedence_" + how
-			if vfC04.WantSample(cls) {
-				vfC04.Sample(cls, map[string]any{
-					"request_clientid": reqCID, "request_addr": target.String(), "lease_mac": hex.EncodeToString(leaseMAC),
-					"registry": strings.Join(desc, "; "), "attributed_to": want, "decided_by": how,
-					"insert_order": vfC04Names2(order),
-				})
-			}
+		}
+		if cls := "precedence_" + how; vfC04.WantSample(cls) {
+			vfC04.Sample(cls, map[string]any{
+				"request_clientid": reqCID, "request_addr": target.String(), "lease_mac": hex.EncodeToString(leaseMAC),
+				"registry": strings.Join(desc, "; "), "attributed_to": want, "decided_by": how,
+				"insert_order": vfC04Names2(order),
+			})
 		}
 	})
 }
